@@ -1,5 +1,5 @@
-"""C04 (all sizes): `calculate_decay_matrix_no_irf` adds exp(-rate_r * t_t) to cell (t, r), for every number of
-rates and times - loop invariants over the AST of the real kernel (PyVC-U, `pyvc/wp.py`)."""
+"""C04 (all sizes): `calculate_decay_matrix_no_irf` turns a zeroed matrix into exp(-rate_r * t_t) at cell (t, r), for every
+number of rates and times - loop invariants over the AST of the real kernel (PyVC-U, `pyvc/wp.py`)."""
 from __future__ import annotations
 
 import z3
@@ -15,7 +15,10 @@ def no_irf_spec():
     t, r = ints("t", "r")
 
     def requires(env):
-        return [env.shape("matrix", 0) == env.shape("times"), env.shape("matrix", 1) == env.shape("rates")]
+        # the callers hand over a freshly zeroed matrix (np.zeros in calculate_matrix): with that precondition the contract
+        # does not care whether the kernel adds to or assigns the cell - both satisfy the property
+        zero = z3.ForAll([t, r], z3.Implies(z3.And(inb(t, env.shape("times")), inb(r, env.shape("rates"))), env.sel("matrix", t, r) == 0), patterns=[env.sel("matrix", t, r)])
+        return [env.shape("matrix", 0) == env.shape("times"), env.shape("matrix", 1) == env.shape("rates"), zero]
 
     def cell(old, now, done):
         nt, nr = old.shape("times"), old.shape("rates")
@@ -23,11 +26,11 @@ def no_irf_spec():
         return z3.ForAll([t, r], z3.If(z3.And(inb(t, nt), inb(r, nr)), now.sel("matrix", t, r) == old.sel("matrix", t, r) + add, now.sel("matrix", t, r) == old.sel("matrix", t, r)), patterns=[now.sel("matrix", t, r)])
 
     def ensures(old, new, res):
-        return [("cell_t_r_gains_exp_minus_rate_r_times_t_and_nothing_else_changes", cell(old, new, z3.BoolVal(True)))]
+        return [("cell_t_r_of_a_zeroed_matrix_becomes_exp_minus_rate_r_times_t_and_nothing_else_changes", cell(old, new, z3.BoolVal(True)))]
 
     invariants = {
         0: lambda old, now, i: [cell(old, now, r < i)],
-        1: lambda old, now, i: [cell(old, now, z3.Or(r < now["n_r"], z3.And(r == now["n_r"], t < i))), now["r_n"] == old.sel("rates", now["n_r"])],
+        1: lambda old, now, i: [cell(old, now, z3.Or(r < now.loopvar(0), z3.And(r == now.loopvar(0), t < i))), inb(now.loopvar(0), old.shape("rates"))],
     }
     return wp.FnSpec(fn, [("matrix", "arr2"), ("rates", "arr1"), ("times", "arr1")], requires, ("matrix",), ensures, invariants, {"np.exp": ext_exp})
 
